@@ -38,13 +38,17 @@ Definition rel_close (tol a b : Q) : bool := Qle_bool (Qabs (a - b)) (tol * Qmax
 (* column j of the parsed rows *)
 Definition column (j : nat) (rows : list (list Q)) : list Q := map (fun r => nth j r 0) rows.
 
-(* one output column against the reported [minimum; maximum; median; average; mean; standard deviation] *)
+(* one output column against the reported [minimum; maximum; median; average; mean; standard deviation].
+   The squared standard deviation is compared with the variance relative to the scale of the data (a constant column
+   has variance 0 exactly while numpy reports a standard deviation of the order of 1e-16 * |value|). *)
 Definition stats_agree (tol : Q) (col : list Q) (reported : list Q) : bool :=
   match col, reported with
   | x :: l, [mn; mx; md; av; me; sd] =>
+      let scale := Qmax (Qabs (min_of x l)) (Qabs (max_of x l)) in
       Qeq_bool (min_of x l) mn && Qeq_bool (max_of x l) mx && rel_close tol (median col) md
       && rel_close tol (mean_x col) av && rel_close tol (mean_x col) me
-      && rel_close (2 * tol) (variance_x col) (sd * sd) && Qle_bool 0 sd
+      && Qle_bool (Qabs (variance_x col - sd * sd)) (2 * tol * Qmax (Qmax (variance_x col) (sd * sd)) (scale * scale))
+      && Qle_bool 0 sd
   | _, _ => false
   end.
 
